@@ -246,7 +246,7 @@ func (g *gen) genDataFile(o dataOpts) *dataFile {
 		for _, m := range df.maps {
 			for _, n := range nets {
 				if g.chance(1, 2) {
-					lo := ""
+					lo := "dd" // a subnet line without a location is rejected by the RocksDB codec
 					if len(df.locs) > 0 {
 						lo = g.pick(df.locs)
 					}
